@@ -22,7 +22,7 @@ RULE = ("(a) histories of 2-8 connections opening, calling and closing against r
         "non-trivial = more than one connection or thread involved")
 ASSUMPTIONS = ["a slow constructor (sleep) is a legitimate application behaviour that widens the race window without touching Pyro",
                "scheduling points = source lines of Daemon._getInstance (and its nested createInstance) only"]
-REQUIRED_REACH = ["failing_disconnect_hooks", "single_ok", "session_ok", "percall_ok", "creator_counts_ok", "failing_creator_ok", "racing_first_calls", "session_instances_dropped", "schedules_explored", "multi_daemon_ok", "oneway_first_requests", "registered_class_inherits_behavior", "registration_changes_ok", "slow_constructor_with_commtimeout"]
+REQUIRED_REACH = ["connected_socket_ok", "failing_disconnect_hooks", "single_ok", "session_ok", "percall_ok", "creator_counts_ok", "failing_creator_ok", "racing_first_calls", "session_instances_dropped", "schedules_explored", "multi_daemon_ok", "oneway_first_requests", "registered_class_inherits_behavior", "registration_changes_ok", "slow_constructor_with_commtimeout"]
 SHARD_TIMEOUT = {"quick": 240, "thorough": 2800}
 SHAPES = ["truthy", "falsy_len", "falsy_bool", "eq_always"]
 CREATORS = ["none", "ok", "raises", "raises_type", "wrongtype", "subclass"]     # subclass: the creator returns an instance of a subclass (allowed by the daemon's isinstance check)
@@ -297,6 +297,76 @@ def socket_case(fx, mode, shape, creator, nconn, ncalls, rec, r, sername, race, 
         fx.daemon.unregister(objid)
 
 
+def connected_socket_case(P, mode, shape, creator, rec, r, sername):
+    """a daemon on a socket pair the application connected itself (Daemon(connected_socket=...)), whose request loop the application leaves
+    (loopCondition) and enters again while the connection stays open: still ONE connection, so one session instance, one single instance,
+    a fresh one per call - and one creator call per instance"""
+    import socket as _s
+    cls, book = make_class(P, mode, shape, creator)
+    s1, s2 = _s.socketpair()
+    s1.settimeout(20)
+    s2.settimeout(20)
+    rounds, per_round = r.choice([2, 3]), r.choice([1, 2, 3])
+    pay = {"connected_socket": True, "mode": mode, "shape": shape, "creator": creator, "rounds": rounds, "per_round": per_round, "serializer": sername}
+    rec.case(("connsock", mode, shape, creator, rounds, per_round, sername), nontrivial=True, sample=pay if rec.evaluations % 20 == 3 else None)
+    d = P.server.Daemon(connected_socket=s1)
+    d.register(cls, "cs")
+    done = [threading.Event() for _ in range(rounds)]
+    errs = []
+
+    def server():
+        try:
+            for k in range(rounds):
+                limit = (k + 1) * per_round
+                d.requestLoop(loopCondition=lambda: len(book.serving) < limit)       # serve this round's calls, leave the loop, come back
+                done[k].set()
+        except Exception as x:
+            errs.append(x)
+            for e in done:
+                e.set()
+    t = threading.Thread(target=server, daemon=True)
+    t.start()
+    got = []
+    try:
+        p = P.client.Proxy("cs", connected_socket=s2)
+        p._pyroSerializer = sername
+        for k in range(rounds):
+            for c in range(per_round):
+                got.append(tuple(p.who(c)))
+            if not done[k].wait(20):
+                rec.inconc("connected-socket daemon did not leave its request loop")
+                return
+    except Exception as x:
+        rec.inconc("connected-socket case: a call failed in the harness: %r" % (x,))
+        return
+    finally:
+        t.join(20)
+        try:
+            d.close()
+        except Exception:
+            pass
+        s1.close()
+        s2.close()
+    if errs:
+        rec.inconc("connected-socket case: server side error %r" % (errs[0],))
+        return
+    insts = [g[0] for g in got]
+    with book.lock:
+        created, ccalls = list(book.created), book.creator_calls
+    if mode in ("single", "session") and (len(set(insts)) != 1 or len(created) != 1):
+        rec.violation(("single-mode-multiple-instances:" if mode == "single" else "session-mode-multiple-instances-per-connection:") + "connected-socket",
+                      "%s/%s on a daemon with a pre-connected socket, request loop entered %d times on the one connection: %d instances were constructed, calls served by %r" % (
+                          mode, shape, rounds, len(created), insts), pay)
+        return
+    if mode == "percall" and (len(set(insts)) != len(insts) or len(created) != len(insts)):
+        rec.violation("percall-instance-reused", "percall/%s on a pre-connected socket: %d calls, instances %r, %d constructed" % (shape, len(insts), insts, len(created)), pay)
+        return
+    if creator in ("ok", "subclass") and ccalls != len(created):
+        rec.violation("creator-call-count", "%s/%s on a pre-connected socket: creator invoked %d times for %d instances" % (mode, shape, ccalls, len(created)), pay)
+        return
+    rec.count("connected_socket_ok")
+
+
 def registration_change_case(fx, shape, creator, rec, r, sername):
     """'single': one instance per daemon, whatever happens to the class's registrations meanwhile - registered under two ids, one of them
     unregistered while a connection is open, all of them unregistered and the class registered again"""
@@ -532,6 +602,9 @@ def run_shard(shard, rec):
         mode = shard["mode"]
         for rep in range(shard["reps"]):
             for shape in SHAPES:
+                for creator in ("none", "ok"):
+                    connected_socket_case(P, mode, shape, creator, rec, r, r.choice(fixture.SERIALIZERS))
+            for shape in SHAPES:
                 for creator in ("none", "ok", "subclass"):
                     multi_daemon_case([fx, fx2], make_fx, mode, shape, creator, rec, r, r.choice(fixture.SERIALIZERS))
                     if mode == "single":
@@ -573,6 +646,9 @@ def replay(payload, rec):
         rec.case(("replay", repr(payload)[:100]))
         print("schedule:", res.trace)
         check_sched(P, payload["mode"], payload["shape"], payload["creator"], payload["nthreads"], rec, sc, res, got, book, payload)
+        return
+    if payload.get("connected_socket"):
+        connected_socket_case(P, payload["mode"], payload["shape"], payload["creator"], rec, r, payload["serializer"])
         return
     if payload.get("multi"):
         make_fx = lambda: fixture.Fixture(servertype=payload["servertype"], COMMTIMEOUT=0.0, THREADPOOL_SIZE=40, THREADPOOL_SIZE_MIN=2)
